@@ -55,6 +55,15 @@ Theorem render_parse : forall o m max_size request_payload w,
 Proof. exact render_parse_stmt. Qed.
 Print Assumptions render_parse.
 
+(* the same with a padding block size (Message.pad): the parsed message carries, in addition, the padding
+   option that Renderer.add_opt appended (msg_equiv_p: OPT = the original OPT with option 12 of zeros added) *)
+Theorem render_parse_padded : forall o pad m max_size request_payload w,
+  org_ok o -> WfMsg o m -> wf_tsig m ->
+  to_wire m o max_size request_payload false pad = Ok w ->
+  exists m', from_wire w o po0 = Ok m' /\ msg_equiv_p pad m' m.
+Proof. exact render_parse_padded_stmt. Qed.
+Print Assumptions render_parse_padded.
+
 (* ... and rendering the parsed message again (same limit, no shuffling) reproduces the octets exactly:
    the parsed names differ from the originals at most in the case of labels that the renderer wrote as
    a compression pointer (and, below an origin, in the origin labels, which are written from the origin) *)
@@ -207,6 +216,18 @@ Proof.
   exists w, m'. split; [reflexivity|]. split; [exact F|]. split.
   - vm_compute in E. injection E as <-. vm_compute in F. injection F as <-. vm_compute. discriminate.
   - exact (rerender_identical None ex_m 0 0 w m' Logic.I ex_m_wf Logic.I E F).
+Qed.
+
+(* with block size 16 the rendering is block aligned and the parsed OPT carries the padding option *)
+Example render_parse_padded_nonvacuous :
+  exists w m', to_wire ex_m None 0 0 false 16 = Ok w /\ zlen w mod 16 = 0 /\
+               from_wire w None po0 = Ok m' /\ msg_equiv_p 16 m' ex_m /\ mopt m' <> mopt ex_m.
+Proof.
+  destruct (to_wire ex_m None 0 0 false 16) as [w| |] eqn:E; try (vm_compute in E; discriminate).
+  destruct (render_parse_padded None 16 ex_m 0 0 w Logic.I ex_m_wf Logic.I E) as (m' & F & EQ).
+  exists w, m'. split; [reflexivity|]. vm_compute in E. injection E as <-.
+  split; [reflexivity|]. split; [exact F|]. split; [exact EQ|].
+  vm_compute in F. injection F as <-. vm_compute. discriminate.
 Qed.
 
 (* ---- non-vacuity for updates: zone ex.com/IN, prerequisites "name in use", "RRset does not exist",
